@@ -150,6 +150,33 @@ def check_composite(ctx, c, rng, k):
     if n_regex != expect:
         ctx.disagree('translate() does not return one regex per distinct expanded pattern',
                      dict(wit, regexes=n_regex, expected=expect))
+    # the same law when the names are looked up on a real tree (REALPATH): directories named with and without their separator,
+    # a symlinked directory, hidden entries, a name that does not exist
+    if c.path_mode and REAL_ROOT[0]:
+        root = REAL_ROOT[0]
+        try:
+            mr = G.compile(c.patterns, flags=flags | G.REALPATH, **kw)
+            inc_r = [G.compile(t, flags=sflags | G.REALPATH) for t, _ in c.inc]
+            # exclusion patterns are applied to the path text: their `**` is not subject to the symlink rule of C06 (FOLLOW)
+            exc_r = [G.compile(t, flags=eflags | G.REALPATH | G.FOLLOW) for t, _ in c.exc]
+            if not c.inc and c.exc and 'NEGATEALL' in c.flags:
+                inc_r = [G.compile('**', flags=sflags | G.GLOBSTAR | G.REALPATH)]
+            for n in REAL_NAMES:
+                exp = any(x.match(n, root_dir=root) for x in inc_r) and not any(x.match(n, root_dir=root) for x in exc_r)
+                got = mr.match(n, root_dir=root)
+                ctx.evals()
+                ctx.count('realpath_decomposition_checks')
+                if got is not exp:
+                    ctx.disagree('REALPATH: composite differs from the boolean combination of its single patterns on a real tree',
+                                 dict(wit, name=n, expected=exp, observed=got, mode='realpath',
+                                      inclusion_answers=[x.match(n, root_dir=root) for x in inc_r],
+                                      exclusion_answers=[x.match(n, root_dir=root) for x in exc_r]))
+                    break
+            want_r = [n for n in REAL_NAMES if mr.match(n, root_dir=root)]
+            if G.globfilter(REAL_NAMES, c.patterns, flags=flags | G.REALPATH, root_dir=root, **kw) != want_r:
+                ctx.disagree('REALPATH: globfilter disagrees with the compiled matcher on a composite', dict(wit, mode='realpath'))
+        except Exception as e:  # noqa: BLE001
+            ctx.disagree(f'REALPATH composite raised {type(e).__name__}', dict(wit, exception=repr(e)[:200], mode='realpath'))
     # reference model on the singles (sample)
     if k % 3 == 0:
         model_check(ctx, c, names, results)
@@ -216,16 +243,28 @@ def model_check(ctx, c, names, results):
             break
 
 
+REAL_ROOT = [None]
+REAL_TREE = [('a', 'f', None), ('b', 'd', None), ('b/a', 'f', None), ('b/c', 'd', None), ('b/c/a', 'f', None), ('.a', 'f', None),
+             ('.b', 'd', None), ('.b/a', 'f', None), ('ab', 'l', 'b'), ('c.a', 'f', None), ('ba', 'd', None), ('b/.a', 'f', None)]
+REAL_NAMES = [p + s for p, _k, _t in REAL_TREE for s in ('', '/')] + ['zz', 'b/zz', 'ab/a', 'ab/c/', 'ab/c', 'b//a', './a', 'b/../a']
+
+
 def run(ctx):
+    from .. import tree as T
     quick = ctx.quick
     k = 0
     limit = 260 if quick else 10 ** 9
-    while k < limit and not ctx.out_of_time():
-        k += 1
-        rng = ctx.rng_for('comp', ctx.shard, k)
-        c = rand_composite(rng, path_mode=bool(k % 2))
-        with ctx.case(label=c.describe()):
-            check_composite(ctx, c, rng, k)
+    with T.Tree(REAL_TREE, 'c07-') as tr:
+        REAL_ROOT[0] = tr.root
+        try:
+            while k < limit and not ctx.out_of_time():
+                k += 1
+                rng = ctx.rng_for('comp', ctx.shard, k)
+                c = rand_composite(rng, path_mode=bool(k % 2))
+                with ctx.case(label=c.describe()):
+                    check_composite(ctx, c, rng, k)
+        finally:
+            REAL_ROOT[0] = None
     ctx.count('composites', k)
 
 
@@ -244,6 +283,16 @@ def replay(ctx, w):
     inline = [t for t, _ in c.inc] + ([mark + t for t, _ in c.exc] if c.exclude is None else [])
     c.inline_count = len(set(inline))
     rng = random.Random(0)
+    if w.get('mode') == 'realpath':
+        from .. import tree as T
+        c.path_mode = True
+        with T.Tree(REAL_TREE, 'c07r-') as tr:
+            REAL_ROOT[0] = tr.root
+            try:
+                check_composite(ctx, c, rng, 1)
+            finally:
+                REAL_ROOT[0] = None
+        return ctx.violations or None
     names = [w['name']] if 'name' in w else None
     if names:
         global names_for
